@@ -183,6 +183,9 @@ func psiRefDescBody(d *astits.Descriptor) []byte {
 	if psiRefIsUserTag(d.Tag) {
 		return d.UserDefined
 	}
+	if psiRefTypedTags[d.Tag] && d.Unknown == nil && c14RefBodyPresent(d) {
+		return c14RefBody(d) // a typed body: the reference layouts of C14 (c14_ref.go)
+	}
 	if d.Unknown != nil {
 		return d.Unknown.Content
 	}
